@@ -95,6 +95,7 @@ def fixed_for(lay, K):
         fx["orders"][("id", i)] = i
         fx["orders"][("user_id", i)] = lay["order_user"][i]
         fx["orders"][("kind", i)] = lay["kind"][i]
+        fx["orders"][("flag", i)] = i % 2
         fx["orders"][("qty", i)] = lay["qty"][i]
         fx["items"][("id", i)] = i
         fx["items"][("order_id", i)] = i % K
@@ -220,7 +221,7 @@ def main():
     tabs = pucat.tables(K)
     pus = pucat.pu_defs()
     G.update(fns=fns, K=K, tabs=tabs, pus=pus)
-    configs = [("chain", "cu1"), ("chain", "cu2"), ("own-column", "cu1")] if tier == "quick" else [(p, q) for p in ("chain", "own-column") for q in PARAMS]
+    configs = [("chain", "cu1"), ("chain", "cu2"), ("own-column", "cu1"), ("own-weighted", "cu2")] if tier == "quick" else [(p, q) for p in ("chain", "own-column", "own-weighted") for q in PARAMS]
     jobs, keys = [], []
     for sql, pk, pubk in PROGRAMS:
         for pun, prm in configs:
@@ -239,6 +240,8 @@ def main():
                 ck.note("rewrite_with_differential_privacy panics on `%s` (%s, %s): %s" % (sql, pun, prm, ans["panic"]))
             continue
         rel = ans["ok"]["rewritten"]
+        if not ({p_[0] for p_ in symrel.tables_of(rel)} & {t["table"] for t in pus[pun]["tables"]}):
+            continue   # the query reads no table this privacy-unit definition protects: nothing to release
         nodes = find_nodes(rel)
         eds = dpir.epsilon_deltas(ans["ok"]["dp_event"])
         if nodes["release"] is None:
